@@ -66,6 +66,8 @@ def run_fn(c) -> CaseResult:
     up = pb.rt(tuple(y.shape), c["seedG"], "normal", y.dtype, salt=3)
     g = torch.autograd.grad(y, ts, up, allow_unused=True)
     tol = TOL[c["dtype"]]
+    if op == "rms_norm":
+        tol = max(tol, 2e-5)   # float32 denominator by design (see above)
     try:
         torch._dynamo.reset()
         cf = torch.compile(bu.u, backend=c["backend"], fullgraph=True)
@@ -122,10 +124,13 @@ def run_mod(c) -> CaseResult:
     except Exception as e:  # noqa: BLE001
         res.fail(exc_bucket(f"C20.compile.raises:{cls}:{c['backend']}", e).replace("outside-library", "in-torch")[:300], f"{type(e).__name__}: {str(e)[:400]}")
         return res
-    if not close(yc, y, 1e-10):
+    # modules that contain RMS normalisation compute its denominator in float32 by design: a code generator may legitimately
+    # fuse / reorder that float32 arithmetic, so only float32-level agreement can be asked of them
+    f32_inside = cls in ("RMSNorm", "TransformerLayer", "TransformerDecoder")
+    if not close(yc, y, 2e-5 if f32_inside else 1e-10):
         res.fail(f"C20.compile.value:{cls}", f"compiled ({c['backend']}) module output differs from eager: max {(yc - y).abs().max().item():.3g}")
     for i, (a, b) in enumerate(zip(gc, g)):
-        if not close(a, b, 1e-9):
+        if not close(a, b, 2e-4 if f32_inside else 1e-9):
             res.fail(f"C20.compile.grad:{cls}", f"compiled ({c['backend']}) gradient {i} differs from eager")
             break
     res.nontrivial = True
